@@ -6,7 +6,7 @@ import itertools
 
 import numpy as np
 
-from .. import gen, monitors
+from .. import derive, gen, monitors
 
 PID = "C01"
 ANCHORS = ["scores.py:Scores.cm", "scores.py:Scores.__init__", "scores.py:pointwise_cm"]
@@ -124,7 +124,7 @@ def execute(ctx, case):
         thr = gen.apply_form(thr, case.get("thr_form"))
         if isinstance(thr, tuple):
             thr = list(thr)
-    kw = dict(nb_easy_pos=ep, nb_easy_neg=en, score_class=sc, equal_class=ec)
+    kw = derive.call_form(case.get("_seed", 0), dict(nb_easy_pos=ep, nb_easy_neg=en, score_class=sc, equal_class=ec))  # documented defaults may be left out
     if via == "from_labels":
         lab_pos = case.get("pos_label", 1)
         labels = np.concatenate([np.full(len(pos), lab_pos), np.zeros(len(neg), dtype=int)])
@@ -198,7 +198,7 @@ def execute(ctx, case):
         labels = np.concatenate([np.ones(len(pos), dtype=int), np.zeros(len(neg), dtype=int)])
         allv = np.concatenate([np.asarray(pos), np.asarray(neg)]) if len(pos) + len(neg) else np.zeros(0)
         try:
-            pw = pointwise_cm(labels, allv, thr, score_class=sc, equal_class=ec)
+            pw = pointwise_cm(labels, allv, thr, **derive.call_form(case.get("_seed", 0), dict(score_class=sc, equal_class=ec)))
         except Exception as e:  # would be C10's business too; here it blocks the relation
             sess.check("R-pwsum", False, "pointwise_cm raised", lambda: {"exc": repr(e), "thr_shape": tarr.shape}, key="pw-raise")
         else:
